@@ -29,13 +29,14 @@ import numpy as np
 SEP = {-1: '/', -2: '_', -3: '-', -4: '.'}
 SEPR = {v: k for k, v in SEP.items()}
 KEYWORDS = {1: 'derivatives', 2: 'sub', 3: 'ses', 4: 'task', 5: 'run', 6: 'space', 7: 'desc',
-            8: 'json', 9: 'tsv', 10: 'events', 11: 'mat', 12: 'Meadows', 13: 'v'}
+            8: 'json', 9: 'tsv', 10: 'events', 11: 'mat', 12: 'Meadows', 13: 'v', 14: 'epo', 15: 'fif'}
 # words of the model-checking configuration (MC_Importers.tla)
 WORDS = dict(KEYWORDS)
 WORDS.update({21: '01', 22: 'ab2', 23: '1', 24: 'post', 25: 'rest', 27: '02', 28: '1',
               29: 'MNI152NLin2009cAsym', 30: 'T1w', 31: 'preproc', 33: 'bold', 34: 'mask',
               35: 'fmriprep', 36: 'ana', 37: 'func', 38: 'anat', 39: 'nii', 40: 'gz',
-              41: 'confounds', 42: 'brain', 43: 'timeseries', 44: 'dseg',
+              41: 'confounds', 42: 'brain', 43: 'timeseries', 44: 'dseg', 45: 'aparcaseg',
+              46: 'pre', 47: '10', 48: 'fsaverage',
               303: '3', 312: '12', 401: 'ox', 402: 'aardvark', 501: 'cuddly', 502: 'able',
               601: 'arrangement', 602: 'ma1', 701: 'myExp', 801: 'v1', 812: 'v12', 901: '1D', 902: 'tree'})
 ENTS = ['sub', 'ses', 'task', 'run', 'space', 'desc', 'suffix', 'ext', 'derivative', 'modality']
@@ -686,11 +687,50 @@ def _project_ds(ds):
             'time': [float(v) for v in ds.time_descriptors.get('time', [])]}
 
 
-def replay_mne(rec, real=True):
+def _replay_mne_file(rec, root, idx, words=WORDS):
+    """read_epochs on a real .fif file whose name carries BIDS entities"""
+    from rsatoolbox.io.mne import read_epochs
+    out = []
+    i, x = rec['i'], rec['expect']
+    fname = to_str(x['fname'], words)
+    d = os.path.join(root, f'e{idx}')
+    os.makedirs(d, exist_ok=True)
+    path = os.path.join(d, fname)
+    case = {'file': fname, 'shape': [i['ne'], i['nc'], i['nt']], 'codes': i['codes']}
+    try:
+        with warnings.catch_warnings():
+            warnings.simplefilter('ignore')
+            ep = _mne_objects(i, x['meas'], True)[1][1]
+            ep.save(path, overwrite=True, verbose='error')
+            ds = read_epochs(path)
+        g = _project_ds(ds)
+    except Exception as ex:
+        return 1, [('viol', f'C20/d/read_epochs/raises/{_exc(ex)}', str(ex), case)]
+    finally:
+        shutil.rmtree(d, ignore_errors=True)
+    want = {k: words[v] for k, v in x['descs'].items() if v}
+    want['filename'] = fname
+    got = dict(ds.descriptors)
+    if got != want:
+        out.append(('viol', 'C20/d/read_epochs/descriptors', 'dataset descriptors differ from the file name and '
+                    'its sub / run / task entities', {**case, 'got': got, 'want': want}))
+    if g['meas'] != [[[float(v) for v in c] for c in e] for e in x['meas']] or g['event'] != x['event'] \
+            or g['name'] != [CHAN[c] for c in x['name']]:
+        out.append(('viol', 'C20/d/read_epochs/content', 'data / events / channel names read from the file differ',
+                    {**case, 'got': g}))
+    wt = [a / b for a, b in x['time']]
+    if len(g['time']) != len(wt) or any(abs(a - b) > 1e-9 for a, b in zip(g['time'], wt)):
+        out.append(('viol', 'C20/d/read_epochs/time', 'times read from the file differ', {**case, 'got': g['time']}))
+    return 1, out
+
+
+def replay_mne(rec, real=True, root=None, idx=0):
     from rsatoolbox.io.mne import dataset_from_epochs
     out = []
     i, x = rec['i'], rec['expect']
     n = 0
+    if x.get('fname'):
+        n, out = _replay_mne_file(rec, root, idx)
     with warnings.catch_warnings():
         warnings.simplefilter('ignore')
         for label, ep in _mne_objects(i, x['meas'], real):
@@ -718,30 +758,60 @@ def replay_mne(rec, real=True):
     return n, out, True
 
 
-def record_mne(rng):
+def record_mne(rng, root=None, tag=''):
     from rsatoolbox.io.mne import dataset_from_epochs
     i = {'ne': int(rng.integers(1, 7)), 'nc': int(rng.integers(1, 4)), 'nt': int(rng.integers(1, 8)),
          'sfreq': int([20, 50, 100, 250][rng.integers(4)]), 'first': int(rng.integers(0, 5))}
     i['codes'] = [int(c) for c in rng.integers(1, 40, size=i['ne'])]
+    i['name'] = {k: ([] if k == 'ext' else 0) for k in ENTS}
     meas = [[[100 * e + 10 * c + t for t in range(1, i['nt'] + 1)] for c in range(1, i['nc'] + 1)]
             for e in range(1, i['ne'] + 1)]
+    descs = {'sub': 0, 'run': 0, 'task': 0}
     with warnings.catch_warnings():
         warnings.simplefilter('ignore')
-        label, ep = _mne_objects(i, meas, True)[int(rng.integers(2))]
-        g = _project_ds(dataset_from_epochs(ep))
+        if root is not None and rng.random() < 0.5:
+            # a real file with a random BIDS-style name, read back with read_epochs
+            from rsatoolbox.io.mne import read_epochs
+            lx = Lexer()
+            vals = {k: (['007', '0010', 'run', 'sub01'][int(rng.integers(4))] if rng.random() < 0.3
+                        else _rand_word(rng)) if rng.random() < 0.7 else None for k in ('sub', 'ses', 'task', 'run')}
+            if vals['run'] and rng.random() < 0.8:        # run labels are usually zero-padded numbers
+                vals['run'] = ['1', '02', '007', '0010', '10'][int(rng.integers(5))]
+            segs = [f'{k}-{v}' for k, v in vals.items() if v] + ['epo']
+            fname = '_'.join(segs) + '.fif'
+            i['name'] = dict(i['name'], suffix=14, ext=[15], **{k: (lx.word(v, False) if v else 0)
+                                                                  for k, v in vals.items()})
+            d = os.path.join(root, f'q{tag}')
+            os.makedirs(d, exist_ok=True)
+            try:
+                ep = _mne_objects(i, meas, True)[1][1]
+                ep.save(os.path.join(d, fname), overwrite=True, verbose='error')
+                ds = read_epochs(os.path.join(d, fname))
+            finally:
+                shutil.rmtree(d, ignore_errors=True)
+            label = fname
+            g = _project_ds(ds)
+            gd = dict(ds.descriptors)
+            descs = {k: lx.t2i.get(gd[k], 9999) if k in gd else 0 for k in ('sub', 'run', 'task')}
+            if gd.get('filename') != fname or set(gd) - {'filename', 'sub', 'run', 'task'}:
+                descs['sub'] = 9998
+        else:
+            label, ep = _mne_objects(i, meas, True)[int(rng.integers(2))]
+            g = _project_ds(dataset_from_epochs(ep))
     rev = {v: k for k, v in CHAN.items()}
 
     def rat(t):
         k = round(t * i['sfreq'])
         return [int(k), i['sfreq']] if abs(k / i['sfreq'] - t) < 1e-12 else [999999, 1]
     got = {'meas': [[[int(v) if float(v).is_integer() else -1 for v in c] for c in e] for e in g['meas']],
-           'event': g['event'], 'name': [rev.get(nm, 99) for nm in g['name']], 'time': [rat(t) for t in g['time']]}
+           'event': g['event'], 'name': [rev.get(nm, 99) for nm in g['name']], 'time': [rat(t) for t in g['time']],
+           'descs': descs}
     return {'k': 'mne', 'i': i, 'got': got, 'text': label}
 
 
 # ================================================================== (e) design matrix
 TRS = {1: 1.0, 2: 2.0, 3: 2.5}
-CONDN = {1: 'b', 2: 'a', 3: 'c'}
+CONDN = {1: 'b', 2: 'a', 3: 'c', 4: 'B2'}
 
 
 def _dm_inputs(i, seed):
@@ -749,8 +819,12 @@ def _dm_inputs(i, seed):
     rng = np.random.default_rng(seed)
     dur = [0.5, 1.0, 2.0][seed % 3]
     jit = [0.0, 0.25, 0.5][(seed // 3) % 3]
-    ev = pandas.DataFrame([dict(onset=1.0 + 2.0 * k + jit * (k % 2), duration=dur, trial_type=CONDN[c])
-                           for k, c in enumerate(i['ev'])])
+    # generator constraint: every event starts at least two volumes before the end of the scan, so that
+    # every condition has a response inside the scan (a constant column has no range to normalise by)
+    tr = TRS[i['tr']]
+    step = min(2.0, (tr * (i['nvols'] - 1) - 2 * tr - 1.0) / max(1, len(i['ev']) - 1))
+    ev = pandas.DataFrame([dict(onset=1.0 + step * k + jit * (k % 2) * min(1.0, step / 2), duration=dur,
+                                trial_type=CONDN[c]) for k, c in enumerate(i['ev'])])
     cf = None
     if i['nconf'] or seed % 2:
         cf = pandas.DataFrame({f'conf{j}': rng.normal(size=i['nvols']) * (j + 1) + 3 * j
@@ -852,6 +926,324 @@ def record_dm(rng):
     g, case = _dm_measure(i, int(rng.integers(0, 1000)))
     return {'k': 'dm', 'i': i, 'got': {k: g[k] for k in ('ncols', 'mask', 'masklen', 'dof', 'colcond', 'norm', 'conf')},
             'text': json.dumps(case['events'])[:300]}
+
+
+# ================================================================== (e') design matrix on the grid, exact
+def check_hrf_table():
+    """the specification's snapshot of the HRF (specs/ImportersHrf.tla) against the library's table"""
+    from rsatoolbox.io.hrf import HRF
+    from harness.core import SPECS
+    txt = (SPECS / 'ImportersHrf.tla').read_text()
+    body = txt[txt.index('HrfTable == <<') + 14:txt.index('>>', txt.index('HrfTable == <<'))]
+    tab = [int(t.replace('(0 - ', '-').replace(')', '')) for t in body.replace('\n', ' ').split(',')]
+    lib = np.asarray(HRF, dtype=float)
+    if len(tab) != len(lib) or np.abs(np.asarray(tab) / 1e7 - lib).max() > 1e-12:
+        return [('viol', 'C20/e/hrf/table', 'the HRF table of rsatoolbox.io.hrf differs from the standard HRF the '
+                 'specification holds (490 samples at 100 ms)', {'n_lib': len(lib), 'n_spec': len(tab)})]
+    return []
+
+
+def _hrf_events(i):
+    import pandas
+    tr = i['s'] / 10
+    dur = i['B'] / 10
+    ev = pandas.DataFrame([dict(onset=m * tr, duration=dur, trial_type=CONDN.get(c, f'k{c}')) for c, m in i['ev']])
+    if int(np.median(ev.duration) / 0.1) != i['B']:       # generator constraint: duration is B grid steps
+        return None, tr
+    return ev, tr
+
+
+def replay_hrf(rec):
+    from rsatoolbox.io.fmriprep import make_design_matrix
+    i, x = rec['i'], rec['expect']
+    ev, tr = _hrf_events(i)
+    if ev is None:
+        return 0, [('unsup', 'hrf/duration-not-on-grid', str(i['B']), None)], False
+    case = {'events': ev.to_dict('records'), 'tr': tr, 'n_vols': i['nvols']}
+    if any(d == 0 for d in x['den']):
+        # a condition whose response lies entirely outside the scan: constant column, range undefined
+        with warnings.catch_warnings():
+            warnings.simplefilter('ignore')
+            try:
+                make_design_matrix(ev, tr, i['nvols'], None)
+            except Exception:
+                pass
+        return 1, [('unsup', 'hrf/constant-column', 'a condition without response inside the scan', None)], False
+    try:
+        with warnings.catch_warnings():
+            warnings.simplefilter('ignore')
+            dm, mask, dof = make_design_matrix(ev, tr, i['nvols'], None)
+        dm = np.asarray(dm)
+    except Exception as ex:
+        return 1, [('viol', f'C20/e/hrf/raises/{_exc(ex)}', str(ex), case)], True
+    out = []
+    want = np.array([[v / d for v in col] for col, d in zip(x['num'], x['den'])]).T
+    if dm.shape != want.shape or len(mask) != want.shape[1] or int(dof) != x['dof']:
+        out.append(('viol', 'C20/e/hrf/shape', 'shape / mask / dof of the design matrix',
+                    {**case, 'got': [list(dm.shape), len(mask), int(dof)], 'want': [list(want.shape), x['dof']]}))
+    else:
+        err = np.abs(dm - want)
+        if not np.all(np.isfinite(dm)) or err.max() > TOL:
+            j, c = np.unravel_index(np.nanargmax(np.where(np.isfinite(err), err, np.inf)), err.shape)
+            before = all(m > j for cc, m in i['ev'] if cc == x['colcond'][c])
+            out.append(('viol', 'C20/e/hrf/' + ('nonzero-before-onset' if before else 'values'),
+                        'design matrix differs from the exact convolution of the HRF table with the events '
+                        '(box of the event duration, sampled every TR, centred, range-normalised)',
+                        {**case, 'volume': int(j), 'column': int(c), 'got': float(dm[j, c]),
+                         'want': float(want[j, c]), 'got_column': dm[:, c].tolist(), 'want_column': want[:, c].tolist()}))
+    return 1, out, True
+
+
+def record_hrf(rng):
+    from rsatoolbox.io.fmriprep import make_design_matrix
+    while True:
+        nc = int(rng.integers(1, 5))
+        nv = int(rng.integers(12, 41))
+        conds = list(range(1, nc + 1)) + [int(v) for v in rng.integers(1, nc + 1, size=int(rng.integers(0, 5)))]
+        i = {'s': int([10, 20, 25][rng.integers(3)]), 'B': int([5, 10, 20, 30][rng.integers(4)]), 'nvols': nv,
+             'ev': [[int(c), int(rng.integers(0, nv - 2))] for c in rng.permutation(conds)]}
+        ev, tr = _hrf_events(i)
+        if ev is not None:
+            break
+    with warnings.catch_warnings():
+        warnings.simplefilter('ignore')
+        dm, mask, dof = make_design_matrix(ev, tr, nv, None)
+    dm = np.asarray(dm)
+    cols = [[int(v) for v in np.rint(dm[:, c] * 10000)] for c in range(dm.shape[1])]
+    return {'k': 'hrf', 'i': i, 'got': {'cols': cols, 'dof': int(dof), 'masklen': int(len(mask))},
+            'text': json.dumps(ev.to_dict('records'))[:300]}
+
+
+# ================================================================== (b'') a derivative data set on disk
+class FakeNibabel:
+    """stands in for nibabel (not installed here): images are .npy payloads under the image's file name"""
+
+    class _Img:
+        def __init__(self, path):
+            self._path = path
+
+        def get_fdata(self):
+            with open(self._path, 'rb') as f:
+                return np.load(f)
+
+    @classmethod
+    def load(cls, path):
+        return cls._Img(path)
+
+
+def _ds_payload(path_str, kind):
+    """content that identifies the file: a number derived from its path"""
+    h = sum((k + 1) * ord(ch) for k, ch in enumerate(path_str)) % 9973
+    if kind == 'bold':
+        return (np.arange(2 * 2 * 2 * 3, dtype=float).reshape(2, 2, 2, 3) + h)
+    if kind == 'mask':
+        m = np.zeros((2, 2, 2))
+        m.flat[[h % 8, (h // 8) % 8, 7]] = 1
+        return m
+    return (np.arange(8).reshape(2, 2, 2) + h) % 3 * 2.0      # parcellation labels 0, 2, 4
+
+
+def replay_dataset(rec, root, idx, words=WORDS):
+    import rsatoolbox.io.bids as bids_mod
+    from rsatoolbox.io.fmriprep import find_fmriprep_runs, FmriprepRun
+    from rsatoolbox.io.bids import BidsLayout
+    i, x = rec['i'], rec['expect']
+    q = i['q']
+    base = os.path.join(root, f'd{idx}')
+    out = []
+    n = 0
+    cols = ['trans_y', 'csf', 'rot_x']
+    try:
+        for atoms in x['files']:
+            p = to_str(atoms, words)
+            full = os.path.join(base, p.replace('/', os.sep))
+            os.makedirs(os.path.dirname(full), exist_ok=True)
+            if p.endswith('.json'):
+                _write(full, json.dumps({'who': p}))
+            elif p.endswith('events.tsv'):
+                _write(full, 'onset\tduration\ttrial_type\twho\n0\t1\ta\t' + p + '\n1\t1\tb\t' + p + '\n')
+            elif p.endswith('timeseries.tsv'):
+                h = sum(map(ord, p)) % 97
+                _write(full, 'rot_x\tcsf\ttrans_y\twho\n' + ''.join(f'{h + k}\t{2 * h + k}\t{3 * h + k}\t{p}\n'
+                                                                      for k in range(3)))
+            else:
+                kind = 'bold' if p.endswith('bold.nii.gz') else ('mask' if p.endswith('mask.nii.gz') else 'parc')
+                with open(full, 'wb') as f:
+                    np.save(f, _ds_payload(p, kind))
+        for r in x['found']:
+            if r['key']:
+                _write(os.path.join(base, to_str(r['key'], words).replace('/', os.sep)),
+                       'index\tname\n0\tnothing\n2\tfoo\n4\tbar\n')
+        der, desc = words[q['der']], words[q['desc']] + ('_' + words[q['suffix']] if q['suffix'] else '')
+        tasks = [words[t] for t in q['tasks']] or None
+        case = {'files_in_data_set': sorted(to_str(a, words) for a in x['files']), 'derivative': der, 'desc': desc,
+                'tasks': tasks}
+        want = {to_str(r['path'], words): r for r in x['found']}
+        old = bids_mod.import_nibabel
+        bids_mod.import_nibabel = lambda mock=None: mock or FakeNibabel      # nibabel is not installed here
+        try:
+            if der == 'fmriprep' and desc == 'preproc_bold':
+                runs = find_fmriprep_runs(base, tasks=tasks)
+                files = [r.boldFile for r in runs]
+            else:
+                runs = None
+                files = BidsLayout(base).find_mri_derivative_files(derivative=der, desc=desc, tasks=tasks)
+        finally:
+            bids_mod.import_nibabel = old
+        n += 1
+        try:        # a pipeline that is not there is reported, not silently empty
+            BidsLayout(base, nibabel=FakeNibabel).find_mri_derivative_files(derivative='nosuchpipeline', desc=desc)
+            out.append(('viol', 'C20/b/dataset/find/missing-pipeline-not-reported', 'asking for a derivative directory '
+                        'that does not exist does not raise', case))
+        except ValueError:
+            pass
+        got = [f.relpath.replace(os.sep, '/') for f in files]
+        if sorted(got) != sorted(want):
+            miss, extra = sorted(set(want) - set(got)), sorted(set(got) - set(want))
+            cls = 'duplicates' if len(set(got)) != len(got) and not miss and not extra else \
+                ('missing' if miss and not extra else ('extra' if extra and not miss else 'wrong-files'))
+            out.append(('viol', f'C20/b/dataset/find/{cls}', 'the files found in the derivative data set are not '
+                        'exactly the files of that pipeline with the asked desc / task',
+                        {**case, 'missing': miss, 'extra': extra, 'got': got}))
+            return n, out, True
+        for f in files:
+            r = want[f.relpath.replace(os.sep, '/')]
+            e = {k: _ent_str(r['ent'], k, words) for k in ENTS}
+            if _attrs(f) != e:
+                out.append(('viol', 'C20/b/dataset/entities', 'entities of a found file', {**case, 'file': f.relpath,
+                                                                                         'got': _attrs(f)}))
+        for run in (runs or []):
+            p = run.boldFile.relpath.replace(os.sep, '/')
+            r = want[p]
+            c2 = {**case, 'run': p}
+            wd = {k: words[v] for k, v in r['descs'].items() if v}
+            try:
+                gd = run.get_dataset_descriptors()
+                n += 1
+                if gd != wd:
+                    bad = sorted(k for k in set(gd) | set(wd) if gd.get(k) != wd.get(k))
+                    out.append(('viol', 'C20/b/fmriprep/dataset-descriptors/' + '+'.join(bad), 'dataset descriptors '
+                                'of a run are not the sub / ses / run / task entities of its file',
+                                {**c2, 'got': gd, 'want': wd}))
+                checks = [('events', lambda: run.get_events()['who'][0], to_str(r['events'], words)),
+                          ('meta', lambda: run.get_meta()['who'], to_str(r['meta'], words)),
+                          ('confounds', lambda: run.boldFile.get_table_sibling('confounds', 'timeseries')
+                           .get_frame()['who'][0], to_str(r['confounds'], words))]
+                for name, fn, wantp in checks:
+                    who = fn()
+                    n += 1
+                    if who != wantp:
+                        out.append(('viol', f'C20/b/fmriprep/{name}/file', f'a run reads the {name} of another file',
+                                    {**c2, 'got': who, 'want': wantp}))
+                cf = run.get_confounds(cols)
+                n += 1
+                h = sum(map(ord, to_str(r['confounds'], words))) % 97
+                wantcf = [[3 * h + k, 2 * h + k, h + k] for k in range(3)]
+                if list(cf.columns) != cols or cf.values.tolist() != wantcf:
+                    out.append(('viol', 'C20/b/fmriprep/confounds/columns', 'get_confounds(names) does not return the '
+                                'named columns in the asked order', {**c2, 'got': cf.to_dict('list'), 'asked': cols}))
+                wmask = _ds_payload(to_str(r['mask'], words), 'mask').astype(bool)
+                wbold = _ds_payload(p, 'bold')
+                wparc = _ds_payload(to_str(r['parc'], words), 'parc').astype(int)
+                lab = {0: 'nothing', 2: 'foo', 4: 'bar'}
+                got_mask = run.get_mask()
+                n += 1
+                if not np.array_equal(got_mask, wmask):
+                    out.append(('viol', 'C20/b/fmriprep/mask/file', "a run reads another file's brain mask", c2))
+                for masked in (False, True):
+                    d = run.get_data(masked=masked)
+                    wd2 = wbold[wmask, :] if masked else wbold.reshape(-1, 3)
+                    chd = run.get_channel_descriptors(masked)['aparcaseg']
+                    wch = [lab[v] for v in (wparc[wmask] if masked else wparc.ravel())]
+                    n += 2
+                    if not np.array_equal(d, wd2):
+                        out.append(('viol', f'C20/b/fmriprep/data/masked={masked}', 'voxel time courses of a run', c2))
+                    if list(chd) != wch:
+                        out.append(('viol', f'C20/b/fmriprep/channel-descriptors/masked={masked}', 'parcellation '
+                                    'labels are not attached to their voxels', {**c2, 'got': list(chd), 'want': wch}))
+                od = run.get_obs_descriptors()['trial_type']
+                oc = run.get_obs_descriptors(collapse_by_trial_type=True)['trial_type']
+                td = run.to_descriptors(collapse_by_trial_type=False, masked=True)
+                n += 3
+                if list(od) != ['a', 'b'] or list(oc) != ['a', 'b'] or \
+                        list(td['obs_descriptors']['trial_type']) != ['a', 'b'] or \
+                        list(td['channel_descriptors']['aparcaseg']) != [lab[v] for v in wparc[wmask]] or \
+                        td['descriptors'] != gd:
+                    out.append(('viol', 'C20/b/fmriprep/to_descriptors', 'to_descriptors / obs descriptors differ from '
+                                'the events, parcellation and entities of the run', c2))
+                ident = {'sub': run.sub, 'ses': run.ses, 'run': run.run}
+                wident = {k: wd.get(k) for k in ident}
+                if ident != wident or repr(run) != f'<FmriprepRun [{p[len("derivatives/fmriprep/"):]}]>'.replace('/', os.sep):
+                    out.append(('viol', 'C20/b/fmriprep/identity', 'sub / ses / run properties or repr of a run',
+                                {**c2, 'got': [ident, repr(run)]}))
+            except Exception as ex:
+                out.append(('viol', f'C20/b/fmriprep/raises/{_exc(ex)}', str(ex)[:300], c2))
+                break
+    finally:
+        shutil.rmtree(base, ignore_errors=True)
+    return n, out, True
+
+
+# ================================================================== (g) RDMs -> long table
+def _df_rows(rdms, stim_rev, parts):
+    from rsatoolbox.io.pandas import rdms_to_df
+    df = rdms_to_df(rdms)
+    df2 = rdms.to_df()
+    if not df.equals(df2):
+        return None
+    prev = {p: k for k, p in enumerate(parts)}
+    rows = []
+    for _, row in df.iterrows():
+        v = float(row['dissimilarity'])
+        rows.append({'dis': int(v) if v.is_integer() else -1, 'rdm': int(row['rdm_index']),
+                     'p1': int(row['pattern_index_1']), 'p2': int(row['pattern_index_2']),
+                     'c1': stim_rev.get(row['conds_1'], 99), 'c2': stim_rev.get(row['conds_2'], 99),
+                     'part': prev.get(row['participant'], 99)})
+    return rows
+
+
+def _df_rdms(nr, order, stim, parts):
+    from rsatoolbox.rdm.rdms import RDMs
+    n = len(order)
+    vec = [[100 * r + 10 * min(order[a], order[b]) + max(order[a], order[b]) for a in range(n)
+            for b in range(a + 1, n)] for r in range(1, nr + 1)]
+    return RDMs(np.array(vec, dtype=float), rdm_descriptors={'participant': parts[:nr]},
+                pattern_descriptors={'conds': [stim[s] for s in order]})
+
+
+def replay_df(rec):
+    i, x = rec['i'], rec['expect']
+    parts = [PARTS[k] for k in sorted(PARTS)]
+    case = {'n_rdm': i['nr'], 'conds': [STIMS[s] for s in i['order']]}
+    try:
+        rows = _df_rows(_df_rdms(i['nr'], i['order'], STIMS, parts), {v: k for k, v in STIMS.items()}, parts)
+    except Exception as ex:
+        return 1, [('viol', f'C20/g/rdms_to_df/raises/{_exc(ex)}', str(ex), case)], True
+    if rows is None:
+        return 1, [('viol', 'C20/g/rdms_to_df/to_df-differs', 'RDMs.to_df() and rdms_to_df() differ', case)], True
+    out = []
+    want = [dict(r, part=r['rdm']) for r in x]
+    if rows != want:
+        k = next((k for k in range(min(len(rows), len(want))) if rows[k] != want[k]), None)
+        bad = '+'.join(f for f in ('dis', 'rdm', 'p1', 'p2', 'c1', 'c2', 'part')
+                       if k is not None and rows[k][f] != want[k][f]) or 'length'
+        out.append(('viol', f'C20/g/rdms_to_df/{bad}', 'a row of the long table does not hold the dissimilarity, RDM '
+                    'descriptors and the two pattern descriptors of one (RDM, pair)',
+                    {**case, 'row': k, 'got': rows[k] if k is not None else len(rows),
+                     'want': want[k] if k is not None else len(want)}))
+    return 1, out, True
+
+
+def record_df(rng):
+    nr, n = int(rng.integers(1, 5)), int(rng.integers(2, 8))
+    order = [int(v) + 1 for v in rng.permutation(n)]
+    parts = [f'p{k}' for k in range(4)]
+    stim = {k: f's{k:02d}' for k in range(1, 10)}
+    rows = _df_rows(_df_rdms(nr, order, stim, parts), {v: k for k, v in stim.items()}, parts)
+    if rows is None or any(r['part'] != r['rdm'] for r in rows):
+        rows = [dict(r, dis=-1) for r in (rows or [{'dis': -1, 'rdm': 0, 'p1': 0, 'p2': 0, 'c1': 0, 'c2': 0}])]
+    return {'k': 'df', 'i': {'nr': nr, 'order': order},
+            'got': [{k: r[k] for k in ('dis', 'rdm', 'p1', 'p2', 'c1', 'c2')} for r in rows]}
 
 
 # ================================================================== (f) SPM filtering
@@ -973,9 +1365,15 @@ def replay_line(line, root, idx, seed, fs_every=8, mat_every=0):
     elif sec == 'meadows':
         n, out, nontriv = replay_meadows(rec, root, idx)
     elif sec == 'mne':
-        n, out, nontriv = replay_mne(rec, real=True)
+        n, out, nontriv = replay_mne(rec, real=True, root=root, idx=idx)
     elif sec == 'dm':
         n, out, nontriv = replay_dm(rec, seed * 7919 + idx)
+    elif sec == 'hrf':
+        n, out, nontriv = replay_hrf(rec)
+    elif sec == 'dataset':
+        n, out, nontriv = replay_dataset(rec, root, idx)
+    elif sec == 'df':
+        n, out, nontriv = replay_df(rec)
     elif sec == 'spm':
         n, out, nontriv = replay_spm(rec, root, idx, via_mat=bool(mat_every) and idx % mat_every == 0)
     else:
